@@ -43,7 +43,7 @@ var (
 const c04tail = "_${X}_$$Y_\\$Z"
 
 // c04lookalikes: values whose single-pass expansion spells a boolean, number or null (variables in c04envMap)
-var c04lookalikes = []string{"${BT}", "$BF", "${ONE}", "$ZERO", "${NUL}", "${TEE}", "$TIL", "${FLT}", "${YES}", "${NOPE:-false}", "$$BT"}
+var c04lookalikes = []string{"$\u00c9TAPE", "a $\u00dcBER b", "${BT}", "$BF", "${ONE}", "$ZERO", "${NUL}", "${TEE}", "$TIL", "${FLT}", "${YES}", "${NOPE:-false}", "$$BT"}
 
 type c04inst struct {
 	lookalike bool   // values (not keys, not plugin sources) become c04lookalikes in turn instead of unique markers
@@ -113,7 +113,7 @@ func c04instrument(n *docgen.N, path string, st *c04inst, seen map[*docgen.N]boo
 	}
 }
 
-var c04envMap = map[string]string{"X": "xv", "Y": "yv", "Z": "zv", "BT": "true", "BF": "false", "ONE": "1", "ZERO": "0", "NUL": "null", "TEE": "t", "TIL": "~", "FLT": "1.5", "YES": "yes"}
+var c04envMap = map[string]string{"X": "xv", "Y": "yv", "Z": "zv", "BT": "true", "BF": "false", "ONE": "1", "ZERO": "0", "NUL": "null", "TEE": "t", "TIL": "~", "FLT": "1.5", "YES": "yes", "\u00c9TAPE": "etape", "\u00dcBER": "uber"}
 
 // c04expected maps every key and value string of the generic JSON tree
 // through the single-pass expansion, except under `signature`.
